@@ -197,7 +197,7 @@ VIEW = {
     'C03': V((OPFILE, r'(struct |impl )'), (r'src/lib\.rs', r'(struct FluentRequest|struct \w+Client$|impl \w+Client)')),
     'C04': V((MODELFILE, r'(struct |enum |type |impl .*(Serialize|Deserialize|Display|FromStr|Deref))'), (r'src/serde\.rs', ITEM)),
     'C05': V((OPFILE, r'(struct |impl )')),
-    'C06': V((r'src/request/', r'(struct |impl |mod$|use$)'), (r'src/lib\.rs', r'mod$'), (r'examples/', r'fn main'), presence=True),
+    'C06': V((r'src/request/', r'(struct |impl |mod$|use$)'), (r'src/lib\.rs', r'mod$'), presence=True),   # examples: that the file exists
     'C07': V((r'src/model/', r'(struct |enum |type |mod$|use$)'), (OPFILE, r'(struct |impl )'), presence=True),
     'C08': V((MODELFILE, r'(struct |enum |type )'), (OPFILE, r'(struct |impl )')),
     'C09': V(),                                                                     # decided by the determinism run alone
